@@ -1056,3 +1056,33 @@ def prov_valence_choice(repo, tier="quick"):
                                    reason="the first valence of the element is taken, not the smallest one that is not below the bonds the atom has: a sulfonyl or phosphonate "
                                           "atom with a free descriptor gets no hydrogen (bond-order sum 5 instead of 6)"))
     return obs
+
+
+def key_edge_orientation(repo, tier="quick"):
+    """The edges the DFS does not cross are written as ring bonds.  "Not crossed" is a statement about unordered pairs: an edge
+    (u, v) of the molecule and the tree edge (v, u) are the same bond.  A membership test of an edge tuple in the edge view of a
+    *directed* traversal result (nx.dfs_tree / bfs_tree, or a list of nx.dfs_edges) is sensitive to the orientation: a bond the
+    DFS crossed from its second end is taken for a ring bond and written twice."""
+    oid = "KEY.edge-orientation"
+    fi = repo.function("write_cgsmiles:write_graph")
+    fn = fi.node
+    directed = set()
+    for sub in ast.walk(fn):
+        if isinstance(sub, ast.Assign) and len(sub.targets) == 1 and isinstance(sub.targets[0], ast.Name):
+            for c in ast.walk(sub.value):
+                if isinstance(c, ast.Call):
+                    nm = _ext(repo, fi, c) or ""
+                    if nm.split(".")[-1] in ("dfs_tree", "bfs_tree", "dfs_edges", "bfs_edges", "dfs_labeled_edges"):
+                        # wrapped into unordered pairs on the spot?  set(map(frozenset, ...)) / {frozenset(e) for e in ...}
+                        if "frozenset" not in ast.unparse(sub.value):
+                            directed.add(sub.targets[0].id)
+    obs = []
+    for sub in ast.walk(fn):
+        if isinstance(sub, ast.Compare) and len(sub.ops) == 1 and isinstance(sub.ops[0], (ast.In, ast.NotIn)):
+            right = sub.comparators[0]
+            base = right.value if isinstance(right, ast.Attribute) and right.attr == "edges" else right
+            if isinstance(base, ast.Name) and base.id in directed and "frozenset" not in ast.unparse(sub.left) and "sorted" not in ast.unparse(sub.left):
+                obs.append(ob_fail(oid, fi, sub, construct=ast.unparse(sub), instance="ring-edges",
+                                   reason="an edge of the molecule is looked up in the edges of a directed traversal result: the answer depends on which end the "
+                                          "DFS entered the bond from, a tree edge crossed backwards is written as a ring bond as well"))
+    return obs
